@@ -129,6 +129,19 @@ def matrix_job(item):
                 rc, err = run_script(which, src, out, cfg, cwd)
                 rows.append({"inputs": which, "config": "%s cwd=%s" % (cfg, "tmp / out".split(" ")[i % 3] if i % 3 < 3 else ""),
                              "rc": rc, "hash": sha_tree(gen.read_tree(out)) if rc == 0 else "failed:" + err[-80:]})
+        # a module split over three files (main + two additional ones): order of initialisers under every hash seed
+        extra = []
+        for k, body in enumerate(["namespace zz { class Q { Q(); }; }\n", "namespace aa { void g(); }\n", "class Wx { Wx(); };\n"]):
+            p2 = os.path.join(tmp, "in", "extra%d_%s.i" % (k, "xyz"[k]))
+            with open(p2, "w") as f:
+                f.write(body)
+            extra.append(p2)
+        for i, cfg in enumerate(configs + [{"PYTHONHASHSEED": str(s_)} for s_ in (2, 3, 4, 5, 6, 7)]):
+            out = os.path.join(tmp, "o_multi_%d" % i)
+            os.mkdir(out)
+            rc, err = run_script("pybind", ";".join([src] + extra), out, cfg, tmp)
+            rows.append({"inputs": "pybind-multi", "config": str(cfg), "rc": rc,
+                         "hash": sha_tree(gen.read_tree(out)) if rc == 0 else "failed:" + err[-80:]})
         # the API in this process, twice (repeatability within a process)
         for rep in range(2):
             r = gen.pybind_text(text, module_name="mymod", ser=True, submodules=[])
